@@ -165,3 +165,114 @@ theorem foldTokens_mem (path : List CMarket) (s : List Nat) (y : Nat) :
       · exact Or.inr h
 
 end Gmx.Lem
+
+namespace Gmx.Lem
+open Gmx
+
+theorem setInsert_length_le (x : Nat) (s : List Nat) : (setInsert x s).length ≤ s.length + 1 := by
+  induction s with
+  | nil => simp [setInsert]
+  | cons z zs ih =>
+    unfold setInsert
+    split
+    · simp
+    · split
+      · simp
+      · simp only [List.length_cons]; omega
+
+theorem setInsert_length_of_mem (x : Nat) (s : List Nat) (hs : s.Pairwise (· < ·)) (hx : x ∈ s) :
+    (setInsert x s).length = s.length := by
+  induction s with
+  | nil => cases hx
+  | cons z zs ih =>
+    rw [List.pairwise_cons] at hs
+    unfold setInsert
+    split
+    · rename_i hlt
+      rcases List.mem_cons.mp hx with rfl | hx
+      · omega
+      · have := hs.1 x hx; omega
+    · split
+      · rfl
+      · rename_i hnlt hne
+        rcases List.mem_cons.mp hx with rfl | hx
+        · exact absurd rfl hne
+        · simp only [List.length_cons, ih hs.2 hx]
+
+/-- a market one of whose sides is already in the token set adds at most two tokens
+(its index token and the token on the other side) -/
+theorem addTokens_length_step (m : CMarket) (s : List Nat) (hs : s.Pairwise (· < ·)) (cur nxt : Nat)
+    (hc : cur ∈ s) (ho : m.opp cur = some nxt) :
+    (m.addTokens s).length ≤ s.length + 2 ∧ nxt ∈ m.addTokens s := by
+  have s1 := setInsert_sorted m.index s hs
+  have s2 := setInsert_sorted m.long _ s1
+  have l1 := setInsert_length_le m.index s
+  have c1 : cur ∈ setInsert m.index s := (setInsert_mem _ _ _).mpr (Or.inr hc)
+  unfold CMarket.opp at ho
+  unfold CMarket.addTokens
+  split at ho
+  · rename_i h
+    simp only [Option.some.injEq] at ho
+    have e2 := setInsert_length_of_mem m.long _ s1 (h ▸ c1)
+    have l3 := setInsert_length_le m.short (setInsert m.long (setInsert m.index s))
+    exact ⟨by omega, (setInsert_mem _ _ _).mpr (Or.inl ho.symm)⟩
+  · split at ho
+    · rename_i _ h
+      simp only [Option.some.injEq] at ho
+      have l2 := setInsert_length_le m.long (setInsert m.index s)
+      have c2 : m.short ∈ setInsert m.long (setInsert m.index s) :=
+        (setInsert_mem _ _ _).mpr (Or.inr (h ▸ c1))
+      have e3 := setInsert_length_of_mem m.short _ s2 c2
+      exact ⟨by omega, (setInsert_mem _ _ _).mpr (Or.inr ((setInsert_mem _ _ _).mpr (Or.inl ho.symm)))⟩
+    · cases ho
+
+theorem addTokens_length_le (m : CMarket) (s : List Nat) : (m.addTokens s).length ≤ s.length + 3 := by
+  unfold CMarket.addTokens
+  have l1 := setInsert_length_le m.index s
+  have l2 := setInsert_length_le m.long (setInsert m.index s)
+  have l3 := setInsert_length_le m.short (setInsert m.long (setInsert m.index s))
+  omega
+
+/-- along a chain that starts at a token already in the set, every step adds at most two tokens -/
+theorem foldTokens_length_chain : ∀ (path : List CMarket) (s : List Nat) (cur : Nat),
+    s.Pairwise (· < ·) → cur ∈ s → pathChain path cur ≠ none →
+    (path.foldl (fun s m => m.addTokens s) s).length ≤ s.length + 2 * path.length := by
+  intro path
+  induction path with
+  | nil => intro s cur _ _ _; simp
+  | cons m ms ih =>
+    intro s cur hs hc hp
+    cases ho : m.opp cur with
+    | none => simp [pathChain, ho] at hp
+    | some nxt =>
+      simp only [pathChain, ho] at hp
+      obtain ⟨hl, hn⟩ := addTokens_length_step m s hs cur nxt hc ho
+      have := ih (m.addTokens s) nxt (addTokens_sorted m s hs) hn hp
+      simp only [List.foldl_cons, List.length_cons]
+      omega
+
+/-- a whole side: at most `2 * steps + 1` new tokens (the input token may be new as well) -/
+theorem foldTokens_length_side (path : List CMarket) (s : List Nat) (tin : Nat)
+    (hs : s.Pairwise (· < ·)) (hp : pathChain path tin ≠ none) :
+    (path.foldl (fun s m => m.addTokens s) s).length ≤ s.length + 2 * path.length + 1 := by
+  cases path with
+  | nil => simp
+  | cons m ms =>
+    cases ho : m.opp tin with
+    | none => simp [pathChain, ho] at hp
+    | some nxt =>
+      simp only [pathChain, ho] at hp
+      have hn : nxt ∈ m.addTokens s := by
+        rw [addTokens_mem]
+        unfold CMarket.opp at ho
+        split at ho
+        · simp only [Option.some.injEq] at ho; exact Or.inl ho.symm
+        · split at ho
+          · simp only [Option.some.injEq] at ho; exact Or.inr (Or.inl ho.symm)
+          · cases ho
+      have := foldTokens_length_chain ms (m.addTokens s) nxt (addTokens_sorted m s hs) hn hp
+      have l := addTokens_length_le m s
+      simp only [List.foldl_cons, List.length_cons]
+      omega
+
+end Gmx.Lem
